@@ -66,7 +66,7 @@ theorem c10_expire (g : Gw) (t : Tx) (st : ConnSt) (f : ConnFields) (hk : t.kind
     split
     · split
       · exact this
-      · unfold runFinally; split <;> simpa [setTx] using this
+      · unfold runFinally; split <;> (try split) <;> simpa [setTx] using this
     · exact this
   refine ⟨fail_alive _ _, ?_, ?_⟩
   · unfold fail; simp [hc]
@@ -75,7 +75,7 @@ theorem c10_expire (g : Gw) (t : Tx) (st : ConnSt) (f : ConnFields) (hk : t.kind
     split
     · split
       · rfl
-      · unfold runFinally; split <;> rfl
+      · unfold runFinally; split <;> (try split) <;> rfl
     · rfl
 
 end Bisquitt.Gw
